@@ -36,6 +36,16 @@ def optStr (j : Json) (k : String) : Except String (Option String) :=
   | .ok _ => throw s!"field {k}: expected string or null"
   | .error _ => pure none
 
+/-- `07-tendermint-N` ↦ N -/
+def getCid (j : Json) (k : String) : Except String Nat := do
+  let s ← str j k
+  let pre := "07-tendermint-"
+  if s.startsWith pre then
+    match (s.drop pre.length).toString.toNat? with
+    | some n => pure n
+    | none => throw s!"field {k}: bad client id {s}"
+  else throw s!"field {k}: bad client id {s}"
+
 def getCons (j : Json) : Except String ConsState := do
   pure ⟨← int j "ts", ← str j "root", ← str j "nvh"⟩
 
@@ -82,7 +92,11 @@ def flatStore (cid : String) (s : Store) : List (String × Json) :=
 def sortKV (l : List (String × Json)) : List (String × Json) := l.mergeSort (fun a b => a.1 ≤ b.1)
 
 def flatWorld (w : World) : List (String × Json) :=
-  sortKV (w.clients.flatMap (fun (cid, s) => flatStore cid s))
+  sortKV (w.clients.flatMap (fun (cid, s) => flatStore (clientId cid) s))
+
+/-- clients that exist (a client state is stored) -/
+def liveClients (w : World) : List (String × Store) :=
+  ((w.clients.filter (fun (_, s) => s.client.isSome)).map (fun (n, s) => (clientId n, s))).mergeSort (fun a b => a.1 ≤ b.1)
 
 /-- merge two key-sorted dumps into the list of changed keys -/
 partial def diffKV : List (String × Json) → List (String × Json) → List Json
@@ -96,7 +110,7 @@ partial def diffKV : List (String × Json) → List (String × Json) → List Js
     else Json.arr #[Json.str k2, v2] :: diffKV r1 r2
 
 def statuses (w : World) : Json :=
-  let l := (w.clients.map (fun (cid, s) => (cid, s))).mergeSort (fun a b => a.1 ≤ b.1)
+  let l := liveClients w
   Json.arr (l.map (fun (cid, s) => Json.arr #[Json.str cid, Json.str (s.status w.now).toString, Json.str (hstr s.latestHeight)])).toArray
 
 def answer (w w' : World) (r : String) : Json :=
@@ -109,7 +123,7 @@ def storeJson (s : Store) : Json :=
               ("asc", heightsJson s.iterAsc)]
 
 def dumpJson (w : World) : Json :=
-  let l := w.clients.mergeSort (fun a b => a.1 ≤ b.1)
+  let l := liveClients w
   Json.mkObj [("clients", Json.arr (l.map (fun (cid, s) => Json.arr #[Json.str cid, storeJson s])).toArray)]
 
 def optCons (o : Option ConsState) : Json :=
@@ -139,16 +153,16 @@ def handle (st : St) (f : String) (j : Json) : Except String (St × Json) := do
     let now ← int j "now"; let self ← getH j "self"; let n ← nat j "nextSeq"
     pure ({ st with w := ⟨[], n, now, self⟩ }, Json.mkObj [("r", "ok")])
   | "create" => pure (doOp st (.create (← getCs (← obj j "cs")) (← getCons (← obj j "cons"))))
-  | "update" => pure (doOp st (.update (← str j "cid") (← getHdr (← obj j "hdr")) (← bool j "valid")))
+  | "update" => pure (doOp st (.update (← getCid j "cid") (← getHdr (← obj j "hdr")) (← bool j "valid")))
   | "misb" =>
     let m : Misbehaviour := ⟨← getHdr (← obj j "h1"), ← getHdr (← obj j "h2"), ← bool j "chainEq"⟩
-    pure (doOp st (.misbehaviour (← str j "cid") m (← bool j "v1") (← bool j "v2")))
+    pure (doOp st (.misbehaviour (← getCid j "cid") m (← bool j "v1") (← bool j "v2")))
   | "advance" => pure (doOp st (.advance (← nat j "dt") (← nat j "dh")))
-  | "upgrade" => pure (doOp st (.upgrade (← str j "cid") (← getUpg (← obj j "u"))))
-  | "recover" => pure (doOp st (.recover (← str j "subject") (← str j "substitute")))
-  | "pruneAll" => pure (doOp st (.pruneAll (← str j "cid")))
-  | "vm" => pure (doOp st (.verifyMembership (← str j "cid") (← getMem j)))
-  | "vnm" => pure (doOp st (.verifyNonMembership (← str j "cid") (← getMem j)))
+  | "upgrade" => pure (doOp st (.upgrade (← getCid j "cid") (← getUpg (← obj j "u"))))
+  | "recover" => pure (doOp st (.recover (← getCid j "subject") (← getCid j "substitute")))
+  | "pruneAll" => pure (doOp st (.pruneAll (← getCid j "cid")))
+  | "vm" => pure (doOp st (.verifyMembership (← getCid j "cid") (← getMem j)))
+  | "vnm" => pure (doOp st (.verifyNonMembership (← getCid j "cid") (← getMem j)))
   | "dump" => pure (st, dumpJson st.w)
   -- raw store functions (C22)
   | "raw.reset" =>
